@@ -227,6 +227,7 @@ func buildEntries(rows []rowRec, shards int) ([]builtEntry, error) {
 				return nil, err
 			}
 			e := builtEntry{part: partKey{Shard: shardIdx, Family: familyTime}, payload: w.Bytes()}
+			_ = w.Close() // Bytes() re-arms the writer (a goroutine of the s2 stream writer); the writer is dropped here
 			// read the rows back from the block to learn which rows the entry carries
 			sb := metric.NewStorageBatchRows()
 			sb.UnmarshalRows(raw.Bytes())
